@@ -260,9 +260,22 @@ def unguardedSites : List Access → List (Text × Text)
   | [] => []
   | a :: t => if guarded a || (t.any fun b => !guarded b && site b == site a) then unguardedSites t else site a :: unguardedSites t
 
-/-- Finding D25 (open): the two request paths that index the map without taking the lock. -/
+/-- Finding D25 (fixed): the two request paths that used to index the map without taking the lock. -/
 def d25Sites : List (Text × Text) :=
   [(t!"promptManager.handleGetPrompt", t!"prompts"), (t!"resourceManager.handleReadResource", t!"resources")]
+
+/-- The access records of the prompt / resource request paths as the extractor emitted them BEFORE D25 was
+    repaired (a literal, not regenerated): `handleGetPrompt` and `handleReadResource` read the map with no lock
+    held while `registerPrompt` / `registerResource` write it under the write lock. -/
+def d25Table : List Access :=
+  [⟨t!"promptManager", t!"prompts", t!"promptManager.getPrompt", .read, .r, 1, false⟩,
+   ⟨t!"promptManager", t!"prompts", t!"promptManager.handleGetPrompt", .read, .none, 0, false⟩,
+   ⟨t!"promptManager", t!"prompts", t!"promptManager.registerPrompt", .read, .w, 1, false⟩,
+   ⟨t!"promptManager", t!"prompts", t!"promptManager.registerPrompt", .write, .w, 1, false⟩,
+   ⟨t!"resourceManager", t!"resources", t!"resourceManager.getResource", .read, .r, 1, false⟩,
+   ⟨t!"resourceManager", t!"resources", t!"resourceManager.handleReadResource", .read, .none, 0, false⟩,
+   ⟨t!"resourceManager", t!"resources", t!"resourceManager.registerResource", .read, .w, 1, false⟩,
+   ⟨t!"resourceManager", t!"resources", t!"resourceManager.registerResource", .write, .w, 1, false⟩]
 
 /-- The registry fields the property is about (owner type, field). -/
 def expectedFields : List (Text × Text) :=
